@@ -933,6 +933,75 @@ func (s *sim) create(step int, op Op) error {
 	return s.afterSuccess(step, vanished)
 }
 
+// burst: K goroutines create one leased virtual channel each through the same node at the same
+// moment (separate requests, as K clients would issue them). Every request must succeed - the
+// names are fresh, valid and distinct - and the keys handed out must be distinct, embed the
+// leaseholder and never have been used before; afterwards metadata and engines must agree as
+// after any successful create.
+func (s *sim) burst(step int, op Op) error {
+	k := len(op.Names)
+	chs := make([]channel.Channel, k)
+	errs := make([]error, k)
+	start := make(chan struct{})
+	var wg sync.WaitGroup
+	before := s.live.clone()
+	for i := range chs {
+		chs[i] = channel.Channel{Name: op.Names[i], DataType: telem.Float32T, Virtual: true, Leaseholder: node.Key(op.Node)}
+		s.submitted++
+		wg.Add(1)
+		go func(i int) {
+			defer wg.Done()
+			<-start
+			errs[i] = s.do(op, func(w channel.Writer) error { return w.Create(s.ctx, &chs[i]) })
+		}(i)
+	}
+	close(start)
+	wg.Wait()
+	s.cause = "burst"
+	s.rep.Class("create-burst")
+	want := before.clone()
+	seen := map[channel.Key]int{}
+	checked := map[channel.Key]bool{}
+	var created []channel.Key
+	for i, r := range chs {
+		if errs[i] != nil {
+			return s.violation("concurrent-create-failed", "step %d: %d channels with fresh, distinct, valid names were created through node %d at the same moment; the request for %q failed: %v", step, k, op.Node, r.Name, errs[i])
+		}
+		key := r.Key()
+		if j, dup := seen[key]; dup {
+			return s.violation("key-reused/concurrent", "step %d: concurrent creates through node %d handed key %d to both %q and %q", step, op.Node, key, chs[j].Name, r.Name)
+		}
+		seen[key] = i
+		if _, live := before[key]; live {
+			return s.violation("key-reused/live", "step %d: concurrent create of %q got key %d of existing channel %v", step, r.Name, key, before[key])
+		}
+		if s.ever[key] {
+			return s.violation("key-reused/deleted", "step %d: concurrent create of %q got key %d, which belonged to deleted channel %v", step, r.Name, key, s.deleted[key])
+		}
+		if node.Key(key>>20) != node.Key(op.Node) || r.Leaseholder != node.Key(op.Node) {
+			return s.violation("wrong-leaseholder-in-key", "step %d: channel %q requested for leaseholder %d got key %d (leaseholder field %d)", step, r.Name, op.Node, key, r.Leaseholder)
+		}
+		want[key] = metaOf(r)
+		checked[key] = true
+		created = append(created, key)
+	}
+	got, err := s.authoritative()
+	if err != nil {
+		return &discard{"retrieve-error"}
+	}
+	if err := s.compare(step, "concurrent create", want, got); err != nil {
+		return err
+	}
+	vanished, err := s.adopt(step, before, got, checked)
+	if err != nil {
+		return err
+	}
+	if err := s.checkNames(step, "concurrent create", s.live, created, nil); err != nil {
+		return err
+	}
+	return s.afterSuccess(step, vanished)
+}
+
 func (s *sim) targets(op Op) channel.Keys {
 	seen := map[channel.Key]bool{}
 	var keys channel.Keys
@@ -965,7 +1034,10 @@ func (s *sim) rename(step int, op Op) error {
 		return nil
 	}
 	before := s.live.clone()
-	err := s.do(op, func(w channel.Writer) error { return w.RenameMany(s.ctx, keys, names, false) })
+	err := s.do(op, func(w channel.Writer) error { return w.RenameMany(s.ctx, keys, names, op.AllowInternal) })
+	if op.AllowInternal {
+		s.rep.Class("rename-allow-internal")
+	}
 	s.cause = "rename"
 	if err != nil {
 		s.rep.Class("rename-failed")
@@ -1301,6 +1373,12 @@ func execute(sc Script, rep *kit.Report) (err error) {
 			e = s.create(step, op)
 		case "rename":
 			e = s.rename(step, op)
+		case "burst":
+			if len(op.Names) == 0 {
+				rep.Class("empty-op")
+				continue
+			}
+			e = s.burst(step, op)
 		case "delete", "delname":
 			e = s.delete(step, op)
 		}
